@@ -83,16 +83,27 @@ func VxB_SWR() {
 	vxND = vxBoundsB()
 	T := time.Duration(vxInt64("swr.timeout"))
 	w := vxNewWorld(T)
-	id := vxURLKey + "#0"
+	// the stale entry is variant "a" of a URI that may have a second, older variant "b"
+	// (which then sorts first in the index)
+	id, idB := vxVariantID("a"), vxVariantID("b")
+	twoVariants := vxChoice("variants", 2) == 1
 	hasETag, hasLM := vxBool("e.has-etag"), vxBool("e.has-lm")
 	h := http.Header{"Date": []string{vxHTTPDate("e.date")}, "Cache-Control": []string{"max-age=60, stale-while-revalidate=600"},
-		vxTagHeader: []string{"stored"}, "X-Rev": []string{"1"}}
+		"Vary": []string{"X-V"}, vxTagHeader: []string{"stored"}, "X-Rev": []string{"1"}}
 	h[vxHdrKey(hasETag, "Etag")] = []string{"\"v1\""}
 	h[vxHdrKey(hasLM, "Last-Modified")] = []string{"Thu, 01 Jan 1970 00:00:00 GMT"}
 	rcv := vxTimeSec("e.date") // received when generated, no Age, no delay
 	e := &vxResponse{ID: id, Data: &http.Response{StatusCode: 200, Header: h, Body: &vxBodyT{tag: 0}}, RequestedAt: rcv, ReceivedAt: rcv}
 	_ = w.rt.cache.Set(id, e)
-	_ = w.rt.cache.SetRefs(vxURLKey, internal.ResponseRefs{&internal.ResponseRef{ResponseID: id, ReceivedAt: rcv}})
+	refs0 := internal.ResponseRefs{&internal.ResponseRef{ResponseID: id, Vary: "X-V", VaryResolved: map[string]string{"X-V": "a"}, ReceivedAt: rcv}}
+	if twoVariants {
+		older := rcv.Add(-time.Hour)
+		eb := &vxResponse{ID: idB, Data: &http.Response{StatusCode: 200, Header: http.Header{"Date": []string{older.UTC().Format(http.TimeFormat)},
+			"Cache-Control": []string{"max-age=999999999"}, "Vary": []string{"X-V"}, vxTagHeader: []string{"stored-b"}}, Body: &vxBodyT{tag: 0}}, RequestedAt: older, ReceivedAt: older}
+		_ = w.rt.cache.Set(idB, eb)
+		refs0 = append(refs0, &internal.ResponseRef{ResponseID: idB, Vary: "X-V", VaryResolved: map[string]string{"X-V": "b"}, ReceivedAt: older})
+	}
+	_ = w.rt.cache.SetRefs(vxURLKey, refs0)
 	w.conn.log = nil
 	vxClkFloor, vxClkHasFloor = rcv, true
 	w.clk.start()
@@ -100,7 +111,7 @@ func VxB_SWR() {
 	age := vxZSub(vxZTime(now), vxZTime(rcv))
 	inWindow := vxAnd(vxZLeq(vxZOf(61*vxSecond), age), vxZLeq(age, vxZOf(659*vxSecond)))
 
-	reqHdr := http.Header{"X-Client": []string{"c"}}
+	reqHdr := http.Header{"X-Client": []string{"c"}, "X-V": []string{"a"}}
 	req := vxGET(reqHdr)
 
 	okind := vxChoice("bg.kind", 5)
@@ -118,7 +129,7 @@ func VxB_SWR() {
 		case 0:
 			return &http.Response{StatusCode: 304, Header: http.Header{"Date": []string{d}, "X-Rev": []string{"2"}, "Cache-Control": []string{"max-age=60, stale-while-revalidate=600"}}, Body: &vxBodyT{tag: 1}}, nil
 		case 1:
-			return &http.Response{StatusCode: 200, Header: http.Header{"Date": []string{d}, "Cache-Control": []string{"max-age=60"}, vxTagHeader: []string{"new"}}, Body: &vxBodyT{tag: 2}}, nil
+			return &http.Response{StatusCode: 200, Header: http.Header{"Date": []string{d}, "Cache-Control": []string{"max-age=60"}, "Vary": []string{"X-V"}, vxTagHeader: []string{"new"}}, Body: &vxBodyT{tag: 2}}, nil
 		case 2:
 			return &http.Response{StatusCode: 503, Header: http.Header{"Date": []string{d}, vxTagHeader: []string{"origin"}}, Body: &vxBodyT{tag: 3}}, nil
 		case 3:
@@ -169,7 +180,7 @@ func VxB_SWR() {
 	vxAssert(vxSameHeader(resp.Header, snapshot), "C16/returned-response-modified-after-return")
 	_, inm := reqHdr["If-None-Match"]
 	_, ims := reqHdr["If-Modified-Since"]
-	vxAssert(len(reqHdr) == 1 && !inm && !ims, "C16/caller-request-modified")
+	vxAssert(len(reqHdr) == 2 && !inm && !ims, "C16/caller-request-modified")
 
 	// C08: the background result is written back (unless the timeout elapsed first)
 	refs, _ := w.rt.cache.GetRefs(vxURLKey)
@@ -190,9 +201,22 @@ func VxB_SWR() {
 		}
 	case 1: // full reply replaces
 		if len(w.origin.calls) == 1 && len(refs) > 0 {
-			ent, gerr := w.rt.cache.Get(refs[0].ResponseID, req)
+			ent, gerr := w.rt.cache.Get(id, req)
 			vxAssert(gerr == nil && ent != nil && vxTagOf(ent.Data) == "new", "C08/full-reply-not-stored")
 		}
 	}
-	vxAssert(len(refs) == 1, "C19/index-size-changed-by-background-revalidation")
+	want := 1
+	if twoVariants {
+		want = 2
+		entB, errB := w.rt.cache.Get(idB, req)
+		vxAssert(errB == nil && entB != nil && vxTagOf(entB.Data) == "stored-b", "C08/other-variant-lost")
+		inIndex := false
+		for _, rf := range refs {
+			if rf.ResponseID == idB {
+				inIndex = true
+			}
+		}
+		vxAssert(inIndex, "C08/other-variant-dropped-from-index")
+	}
+	vxAssert(len(refs) == want, "C19/index-size-changed-by-background-revalidation")
 }
